@@ -510,6 +510,16 @@ def compare_merge(doc, pred, after):
     out.append(("untouched-changed", "lines not touching a chain are no "
                 "longer written as they were: {}".format(
                     [x.replace("\t", " ") for x in sorted(miss)][:4])))
+  # the written document stays closed: no record mentions a segment that
+  # is not defined any more
+  for idx, l in enumerate(after.lines):
+    if l.split("\t")[0] in ("L", "C", "P", "E", "F", "G"):
+      undefined = sorted(n for n in after.mentions.get(idx, ())
+                         if n not in after.segs)
+      if undefined:
+        out.append(("dangling-mention", "{} mentions {} which is not "
+                    "defined".format(l.replace("\t", " "), undefined)))
+        break
   # find an assignment of new names to chains under which everything agrees
   best = None
   for perm in itertools.permutations(new_names):
